@@ -73,7 +73,46 @@ Fixpoint find_split (s : Z) (before : list elem) (l : list elem)
       else (before, Some e, rest)
   end.
 
+(* The overlap test: the new frame overlaps when the element it starts in is a
+   frame (old and new code), and - since the repair - when that element is a gap
+   that ends before the new frame does.  [set_expression_lenient] is the code
+   before the repair: a frame that starts in a gap and reaches into a LATER frame
+   was accepted and left an element of negative length behind
+   (C17_overlap_accepted_refuted). *)
 Definition set_expression (t : td) (s e : Z) (k : nat) (neg : bool) : td * set_result :=
+  if (s <? 0)%Z then (t, SetErr 1) else
+  if (e <? s)%Z then (t, SetErr 2) else
+  if negb (s mod 60 =? 0)%Z then (t, SetErr 3) else
+  if negb (e mod 60 =? 0)%Z then (t, SetErr 4) else
+  if neg then (t, SetErr 5) else
+  let earliest := if ((s <? td_earliest t) || (td_earliest t =? 0))%Z then s else td_earliest t in
+  let latest := if ((td_latest t <? e) || (td_latest t =? 0))%Z then e else td_latest t in
+  if (week <? latest - earliest)%Z then (t, SetErr 6) else
+  let ne := mkElem s e k in
+  match td_elems t with
+  | [] =>
+      let l := [mkElem 0 s 0; ne; mkElem e max_time 0] in
+      let '(l', es) := update_map l e in
+      (mkTd l' es earliest latest, SetOk)
+  | _ =>
+      match find_split s [] (td_elems t) with
+      | (before, Some el, after) =>
+          if ((negb (Nat.eqb (e_expr el) 0) && (e_start el <? e)) ||
+              (Nat.eqb (e_expr el) 0 && (e_end el <? e)))%Z
+          then
+            (* the error is returned after earliest/latest were updated and
+               the expression was appended to t.expressions *)
+            (mkTd (td_elems t) (td_endstart t) earliest latest, SetErr 7)
+          else
+            let l := before ++ [mkElem (e_start el) s (e_expr el); ne;
+                                mkElem e (e_end el) (e_expr el)] ++ after in
+            let '(l', es) := update_map l (td_endstart t) in
+            (mkTd l' es earliest latest, SetOk)
+      | _ => (t, SetErr 99)
+      end
+  end.
+
+Definition set_expression_lenient (t : td) (s e : Z) (k : nat) (neg : bool) : td * set_result :=
   if (s <? 0)%Z then (t, SetErr 1) else
   if (e <? s)%Z then (t, SetErr 2) else
   if negb (s mod 60 =? 0)%Z then (t, SetErr 3) else
@@ -191,6 +230,15 @@ Definition expression_at_value (t : td) (v : Q) : nat :=
   end.
 
 (* a whole sequence of SetExpression calls, as the factory issues them *)
+Fixpoint set_expressions_lenient (t : td) (frames : list (Z * Z * nat)) : td * list set_result :=
+  match frames with
+  | [] => (t, [])
+  | (s, e, k) :: rest =>
+      let '(t', r) := set_expression_lenient t s e k false in
+      let '(t'', rs) := set_expressions_lenient t' rest in
+      (t'', r :: rs)
+  end.
+
 Fixpoint set_expressions (t : td) (frames : list (Z * Z * nat)) : td * list set_result :=
   match frames with
   | [] => (t, [])
